@@ -48,6 +48,9 @@ type SpecFn struct {
 	// OutFields ("block.TotalPlasma:u64"): fields written through a pointer parameter; their final values are appended
 	// to every returned tuple (the initial value is an input).
 	OutFields []string `json:"out_fields,omitempty"`
+	// DropResults: indices of results of a type outside the subset that are left out of the translation (e.g. the
+	// generated block of (block, methodErr, err)); whatever is returned there is not looked at.
+	DropResults []int `json:"drop_results,omitempty"`
 	// NilGuard: every *big.Int input x that hangs off a parameter gets a companion input x_nonnil : bool; calling a
 	// method on x is guarded by it (nil dereference = Panic), `x != nil` / `x == nil` read it.
 	// Group: the generated file the definition goes to: "" = Pure.v, "X" = PureX.v (which imports Pure and the groups
@@ -128,6 +131,8 @@ type ctx struct {
 	oracleN    map[string]int      // per oracle name: calls seen so far
 	oracleSite map[token.Pos]int
 	opaqueL    map[string]bool // locals of unsupported type (usable only as arguments of oracle calls)
+	blocksL    map[string]bool // locals holding a list of descendant blocks
+	blockL     map[string]bool // locals holding ONE descendant block (&nom.AccountBlock{..}), bound to its (to, amount, token)
 	outF       []string        // Coq names of the out fields
 }
 
@@ -777,15 +782,22 @@ func (c *ctx) blocksExpr(e ast.Expr) gexp {
 	if id, ok := e.(*ast.Ident); ok && id.Name == "nil" {
 		return gexp{e: "nil"}
 	}
+	if id, ok := e.(*ast.Ident); ok && c.blocksL[id.Name] {
+		return gexp{e: cn(id.Name)}
+	}
 	lit, ok := e.(*ast.CompositeLit)
 	if !ok {
-		bad(e.Pos(), "descendant blocks must be nil or a literal")
+		bad(e.Pos(), "descendant blocks must be nil, a literal or a local list of blocks")
 	}
 	var items []string
 	var g []string
 	for _, el := range lit.Elts {
 		if u, ok := el.(*ast.UnaryExpr); ok && u.Op == token.AND {
 			el = u.X
+		}
+		if id, ok := el.(*ast.Ident); ok && c.blockL[id.Name] {
+			items = append(items, cn(id.Name))
+			continue
 		}
 		bl, ok := el.(*ast.CompositeLit)
 		if !ok {
@@ -1511,6 +1523,47 @@ func noBind(g []string, pos token.Pos) {
 	}
 }
 
+func (c *ctx) dropped(i int) bool {
+	for _, d := range c.spec.DropResults {
+		if d == i {
+			return true
+		}
+	}
+	return false
+}
+
+// captureArgs: the "let eff_.. := Some arg in" prefixes of the argument captures (".Method:idx" / ".Method:idx:blocks")
+// of the oracle call x used in return position
+func (c *ctx) captureArgs(x *ast.CallExpr) (lets []string, g []string) {
+	sel, ok := x.Fun.(*ast.SelectorExpr)
+	if !ok {
+		return nil, nil
+	}
+	for _, cp := range c.spec.Captures {
+		parts := strings.SplitN(cp, ":", 3)
+		if parts[0] != "."+sel.Sel.Name || len(parts) < 2 || parts[1] == "called" {
+			continue
+		}
+		if len(parts) == 3 && parts[2] != "blocks" {
+			continue
+		}
+		idx := 0
+		fmt.Sscanf(parts[1], "%d", &idx)
+		if idx >= len(x.Args) {
+			bad(x.Pos(), "capture %s: no such argument", cp)
+		}
+		var ae gexp
+		if len(parts) == 3 {
+			ae = c.blocksExpr(x.Args[idx])
+		} else {
+			ae = c.expr(x.Args[idx])
+		}
+		g = merge(g, ae.g)
+		lets = append(lets, "(let eff_"+sel.Sel.Name+"_"+parts[1]+" := (Some "+ae.e+") in ")
+	}
+	return lets, g
+}
+
 func (c *ctx) ret(vals []string) string {
 	vals = append(append([]string{}, vals...), c.outF...)
 	if len(vals) == 0 {
@@ -1573,17 +1626,24 @@ func (c *ctx) stmts(list []ast.Stmt) string {
 						bad(x.Pos(), "return of oracle call %s: %d results expected", on, c.results.Len())
 					}
 					for i, nm := range names {
+						if c.dropped(i) {
+							continue
+						}
 						if nm == "" || kindOf(c.results.At(i).Type()) == "blocks" {
 							bad(x.Pos(), "return of oracle call %s: result %d is outside the subset", on, i)
 						}
 						vals = append(vals, nm)
 					}
-					return guardWrap(g, c.ret(vals))
+					lets, cg := c.captureArgs(call)
+					return guardWrap(merge(g, cg), strings.Join(lets, "")+c.ret(vals)+strings.Repeat(")", len(lets)))
 				}
 			}
 			bad(x.Pos(), "return of a multi-value call is not supported")
 		}
 		for i, r := range x.Results {
+			if len(x.Results) == c.results.Len() && c.dropped(i) {
+				continue
+			}
 			if i < c.results.Len() && kindOf(c.results.At(i).Type()) == "blocks" {
 				ge := c.blocksExpr(r)
 				g = merge(g, ge.g)
@@ -2066,6 +2126,63 @@ func (c *ctx) assign(x *ast.AssignStmt, rest []ast.Stmt) string {
 	if len(x.Lhs) != len(x.Rhs) {
 		bad(x.Pos(), "multi-value assignment from a call is not supported")
 	}
+	// local lists of descendant blocks: x := make([]*nom.AccountBlock, ..) ; d := &nom.AccountBlock{..} ; x = append(x, d)
+	if len(x.Lhs) == 1 {
+		if id, ok := x.Lhs[0].(*ast.Ident); ok {
+			var t types.Type
+			if d := c.info.Defs[id]; d != nil {
+				t = d.Type()
+			} else if u := c.info.Uses[id]; u != nil {
+				t = u.Type()
+			}
+			if t != nil && kindOf(t) == "blocks" {
+				if call, ok := x.Rhs[0].(*ast.CallExpr); ok {
+					if fn, ok := call.Fun.(*ast.Ident); ok && fn.Name == "make" && x.Tok == token.DEFINE {
+						if c.shadows(id) {
+							bad(id.Pos(), "declaration of %s shadows an outer variable (not supported)", id.Name)
+						}
+						if len(call.Args) >= 2 {
+							if lit, ok := call.Args[1].(*ast.BasicLit); !ok || lit.Value != "0" {
+								bad(x.Pos(), "make of a block list with a length other than 0")
+							}
+						}
+						if c.blocksL == nil {
+							c.blocksL = map[string]bool{}
+						}
+						c.blocksL[id.Name] = true
+						return "(let " + cn(id.Name) + " := (@nil (Z * Z * Z)) in " + c.stmts(rest) + ")"
+					}
+					if fn, ok := call.Fun.(*ast.Ident); ok && fn.Name == "append" && x.Tok == token.ASSIGN && c.blocksL[id.Name] && len(call.Args) == 2 {
+						if a0, ok := call.Args[0].(*ast.Ident); ok && a0.Name == id.Name {
+							if a1, ok := call.Args[1].(*ast.Ident); ok && c.blockL[a1.Name] {
+								return "(let " + cn(id.Name) + " := (" + cn(id.Name) + " ++ (" + cn(a1.Name) + " :: nil)) in " + c.stmts(rest) + ")"
+							}
+						}
+					}
+				}
+				bad(x.Pos(), "unsupported operation on the block list %s", id.Name)
+			}
+			if u, ok := x.Rhs[0].(*ast.UnaryExpr); ok && u.Op == token.AND && x.Tok == token.DEFINE {
+				if bl, ok := u.X.(*ast.CompositeLit); ok && strings.HasSuffix(c.info.Types[bl].Type.String(), "nom.AccountBlock") {
+					if c.shadows(id) {
+						bad(id.Pos(), "declaration of %s shadows an outer variable (not supported)", id.Name)
+					}
+					one := c.blocksExpr(&ast.CompositeLit{Elts: []ast.Expr{bl}})
+					tup := strings.TrimSuffix(strings.TrimPrefix(one.e, "("), " :: nil)")
+					if c.blockL == nil {
+						c.blockL = map[string]bool{}
+					}
+					c.blockL[id.Name] = true
+					if c.opaqueL == nil {
+						c.opaqueL = map[string]bool{}
+					}
+					c.opaqueL[id.Name] = true // may be handed to oracle calls
+					c.params[id.Name] = true
+					return guardWrap(one.g, "(let "+cn(id.Name)+" := "+tup+" in "+c.stmts(rest)+")")
+				}
+			}
+		}
+	}
 	if len(x.Lhs) == 1 && x.Tok == token.ASSIGN {
 		if id, ok := x.Lhs[0].(*ast.Ident); ok && c.opaqueL[id.Name] {
 			if call, isCall := x.Rhs[0].(*ast.CallExpr); isCall && (c.oracleName(call) != "" || c.oraclePkg(call) != "") {
@@ -2317,7 +2434,7 @@ func translate(p *packages.Package, f SpecFn, known map[string]*SpecFn, errs map
 			return
 		}
 		c.params[v.Name()] = true
-		if k := kindOf(v.Type()); k != "" && k != "err" {
+		if k := kindOf(v.Type()); k != "" {
 			c.locals[v.Name()] = v.Type()
 			coqParams = append(coqParams, "("+cn(v.Name())+" : "+coqTy(k)+")")
 		}
@@ -2334,6 +2451,9 @@ func translate(p *packages.Package, f SpecFn, known map[string]*SpecFn, errs map
 	var rts []string
 	if len(f.Opaque) == 0 {
 		for i := 0; i < sig.Results().Len(); i++ {
+			if c.dropped(i) {
+				continue
+			}
 			k := kindOf(sig.Results().At(i).Type())
 			if k == "" {
 				panic(fail{fmt.Sprintf("result %d of unsupported type %s", i, sig.Results().At(i).Type())})
@@ -2350,6 +2470,7 @@ func translate(p *packages.Package, f SpecFn, known map[string]*SpecFn, errs map
 		rts = append(rts, coqTy(parts[1]))
 	}
 	var effNames []string
+	effTy := map[string]string{}
 	for _, cp := range f.Captures {
 		parts := strings.SplitN(cp, ":", 3)
 		nm := "eff_" + strings.TrimPrefix(parts[0], ".") + "_" + parts[1]
@@ -2358,7 +2479,12 @@ func translate(p *packages.Package, f SpecFn, known map[string]*SpecFn, errs map
 		}
 		effNames = append(effNames, nm)
 		c.outF = append(c.outF, nm)
-		rts = append(rts, "option Z")
+		if len(parts) == 3 && parts[2] == "blocks" {
+			rts = append(rts, "option (list (Z * Z * Z))")
+			effTy[nm] = "(list (Z * Z * Z))"
+		} else {
+			rts = append(rts, "option Z")
+		}
 	}
 	bodyStmts := fd.Body.List
 	if f.Fragment != "" {
@@ -2408,7 +2534,11 @@ func translate(p *packages.Package, f SpecFn, known map[string]*SpecFn, errs map
 		body = strings.ReplaceAll(body, "FALLTHROUGH", c.ret(nil))
 	}
 	for i := len(effNames) - 1; i >= 0; i-- {
-		body = "(let " + effNames[i] + " := (@None Z) in " + body + ")"
+		ty := "Z"
+		if t, ok := effTy[effNames[i]]; ok {
+			ty = t
+		}
+		body = "(let " + effNames[i] + " := (@None " + ty + ") in " + body + ")"
 	}
 	if len(f.Opaque) > 0 {
 		if c.opaqueK == nil {
